@@ -130,10 +130,11 @@ type Sim struct {
 	chain      []*chainState // per ledger incremental C05 state
 	constraint []string
 
-	harnessErr string
-	spinning   int
-	startTime  time.Time
-	simTime    time.Duration
+	harnessErr           string
+	spinning             int
+	stuckProbed, probing bool
+	startTime            time.Time
+	simTime              time.Duration
 }
 
 type Result struct {
@@ -232,6 +233,7 @@ func newSim(in *Input, target string, maxSteps int) *Sim {
 		sfaults:  map[string]int{},
 		faults:   append([]Fault(nil), in.Faults...),
 	}
+	s.sched.tailSeed, s.sched.tailPct = in.TailSeed, in.TailPct
 	nl := in.Cfg.Ledgers
 	if nl < 1 {
 		nl = 1
@@ -314,6 +316,9 @@ func (s *Sim) root() {
 	fineOn := map[string]bool{}
 	for _, f := range s.in.Cfg.FineSites {
 		fineOn[f] = true
+	}
+	if len(fineOn) > 0 {
+		s.count("fine.runs")
 	}
 	installFineHooks(s.sched, fineOn, s.countLocked)
 	defer uninstallFineHooks()
@@ -413,6 +418,11 @@ func (s *Sim) root() {
 			s.spinning++
 			if s.spinning > 2*len(ps)+2 {
 				s.stuck()
+				if s.probing {
+					s.probing = false
+					s.spinning = 0
+					continue
+				}
 				break
 			}
 		} else {
@@ -489,6 +499,23 @@ func (s *Sim) stuck() {
 	if inLock {
 		// stop whatever the target is: the run cannot continue
 		s.viols = append(s.viols, Violation{Prop: "C15", Class: "request-never-granted", Detail: "ledger run: requests blocked for ever in the account locker: " + strings.Join(blocked, " "), Step: s.sched.step})
+		return
+	}
+	// Requests wait for a persistence that never comes although nothing is in flight: a log that
+	// was chained has been lost on its way to the store. Before giving up, one more write is
+	// issued on every ledger: what the engine hands over next shows whether the lost log left a
+	// hole in the ids (C05's hand-off check); only if that tells nothing is this harness trouble.
+	if !s.stuckProbed {
+		s.stuckProbed = true
+		g := s.cur
+		for li := range g.ledgers {
+			ops := []Op{{Kind: "setmeta", Ledger: li, Target: 0, Key: "k0", Value: "probe-after-stuck"}}
+			ct := s.sched.spawn(g.ctx, g, fmt.Sprintf("g%d.probe%d", g.Idx, li), func(ctx context.Context, t *Task) {
+				s.runClient(ctx, t, g, 1000+li, ops)
+			})
+			g.clients = append(g.clients, ct)
+		}
+		s.probing = true
 		return
 	}
 	s.harnessErr = "stuck outside the locker: " + strings.Join(blocked, " ")
@@ -582,7 +609,12 @@ func (s *Sim) bootLedger(ctx context.Context, g *Generation, li *ledgerInst) (er
 	li.runnerTask = wt
 	rctx := context.WithValue(ctx, taskCtxKey, wt)
 	li.running = true
+	loop := s.sched.adhocTask(g, fmt.Sprintf("g%d.%s.loop", g.Idx, li.name))
 	go func() {
+		// the runner loop is a task too: in fine-grained mode it can be parked between two of its
+		// statements (e.g. inside Batcher.nextBatch); with the plain binary it never parks
+		registerGoroutine(loop)
+		defer unregisterGoroutine()
 		defer func() {
 			if e := recover(); e != nil {
 				// job.Runner re-panics on a failed job: in production the process dies here.
